@@ -84,8 +84,10 @@ Proof.
   assert (K : forall q r, (q = p -> has_key (tombs r) t) -> has_key (tombs (get p (set q r S))) t).
   { intros q r Hr. rewrite get_set. destruct (N.eqb p q && Nat.ltb (N.to_nat q) (length S))%bool eqn:E; [|exact H].
     apply Bool.andb_true_iff in E. destruct E as [E _]. apply N.eqb_eq in E. apply Hr. congruence. }
-  destruct o as [q x tt sg|q x tt sg|q x tt|q x y tt sg|q x y tt sg|d s days]; cbn [step].
+  destruct o as [q x tt sg|q x0 tt sgs|q x tt sg|q x tt|q x y tt sg|q x y tt sg|d s days]; cbn [step].
   - cbn [fst]. apply K. intros ->. exact H.
+  - pose proof (proj1 (create_rows_fields sgs (get q S) x0 tt)) as CT.
+    destruct (create_rows (get q S) x0 tt sgs) as [r g]. cbn [fst] in *. apply K. intros ->. rewrite CT. exact H.
   - destruct (find_node x (nodes (get q S))); cbn [fst]; [|exact H]. apply K. intros ->. exact H.
   - destruct (find_node x (nodes (get q S))); cbn [fst]; [|exact H]. apply K. intros ->.
     cbn [tombs]. apply has_key_tomb_put. exact H.
